@@ -267,6 +267,21 @@ def case_compose_iterate(log, order):
 
 # ---------------------------------------------------------------------------
 def _sampler(rng):
+    return _near(_sampler0(rng))
+
+
+_NEAR = [0]
+
+
+def _near(p):
+    """every third sample has nearly coincident couplings (a1 = a0 (1 + delta), delta = 1e-3 / 1e-6): special-casing of short legs"""
+    _NEAR[0] += 1
+    if _NEAR[0] % 3 == 0 and "a0" in p and "a1" in p:
+        p["a1"] = p["a0"] * (1 + (Fraction(1, 1000) if _NEAR[0] % 2 else Fraction(1, 1000000)))
+    return p
+
+
+def _sampler0(rng):
     p = {"a0": rnd(rng, 0.005, 0.04), "a1": rnd(rng, 0.005, 0.04), "a2": rnd(rng, 0.005, 0.04), "aem": rnd(rng, 0.001, 0.01, 10000), "mu2": rnd(rng, 2, 100), "r": rnd(rng, 0.5, 2)}
     for k in range(4):
         p["g%d" % k] = rnd(rng, -3, 3) * 4**k
@@ -348,7 +363,7 @@ def replay_compose(point, order, kind, sector):
     if not all(k in point for k in ("a0", "a1", "a2")):
         return None
     a0, a1, a2 = (float(point[k]) for k in ("a0", "a1", "a2"))
-    if not all(0 < a < 0.1 for a in (a0, a1, a2)) or min(abs(a0 - a1), abs(a1 - a2), abs(a0 - a2)) < 1e-4:
+    if not all(0 < a < 0.1 for a in (a0, a1, a2)) or min(abs(a0 - a1), abs(a1 - a2), abs(a0 - a2)) < 1e-12:  # short legs are part of the claim
         return None
     m = EvoMethods[COMPOSING[kind]]
     for nf in (3, 4, 5, 6):
